@@ -3,7 +3,10 @@
 SETUP = (
     "/venv/bin/python -c 'import hypothesis' 2>/dev/null || "
     "/venv/bin/pip install --no-index --find-links /opt/veriftools/wheels hypothesis; "
-    "/venv/bin/python -c 'import hypothesis, liquid; print(hypothesis.__version__)'"
+    "/venv/bin/python -c 'import hypothesis, liquid; print(hypothesis.__version__)'; "
+    "PYTHONPATH=/verif/.deps /venv/bin/python -c 'import atheris' 2>/dev/null || "
+    "/venv/bin/pip install -q --no-index --find-links /opt/veriftools/wheels --target /verif/.deps atheris || "
+    "echo 'atheris not installed: the fuzzing stage of the thorough tiers will be skipped and say so in the evidence'"
 )
 
 HOOKS = {
